@@ -26,7 +26,7 @@ COMMON  := -g -fno-omit-frame-pointer -MMD -MP -pthread
 
 WRAP_FS   := fopen64 fopen fclose read write writev time
 WRAP_GSL  := gsl_set_error_handler gsl_set_error_handler_off gsl_integration_qng
-WRAP_PTH  := pthread_mutex_lock pthread_mutex_unlock pthread_mutex_trylock
+WRAP_PTH  := pthread_mutex_lock pthread_mutex_unlock pthread_mutex_trylock __cxa_guard_acquire __cxa_guard_release __cxa_guard_abort
 wrapflags = $(foreach s,$(1),-Wl,--wrap=$(s))
 
 LINK_plain := -static-libstdc++ $(call wrapflags,$(WRAP_FS) $(WRAP_GSL) $(WRAP_PTH))
